@@ -59,6 +59,11 @@ Holds(r, ev) ==
                 /\ o.y = cv.y /\ o.m = cv.m /\ o.d = cv.d
                 /\ o.str = FormatDate(e.ord, e.dashes)
                 /\ o.wd = Weekday(e.ord)
+                (* adding days: the date that many days away, or no date outside years 0000..9999 *)
+                /\ \A i \in 1..Len(o.plus) :
+                      LET n == o.plus[i][1]  t == e.ord + n IN
+                      o.plus[i][2] = IF t < 0 \/ t > MaxOrd THEN -1
+                                     ELSE LET q == Civil(t) IN q.y * 10000 + q.m * 100 + q.d
       [] r = "DateYear" -> k = "date_year" /\ live =>
                 /\ o.tested = 4 * 14 * 33
                 /\ o.mismatch = <<>>
